@@ -327,6 +327,7 @@ def opaque(rep, f):
 
 
 def access(rep, f, c, names):
+    from . import c02
     r = rep.rule("C16.ACCESS", 5,
                  "the validator's BUILTINS and the generator's loop use unicode_property_names(); the VM falls back "
                  "to unicode::by_name; no string-literal arm or template maps a property name to another "
@@ -347,7 +348,7 @@ def access(rep, f, c, names):
     try:
         from .. import synx
         macros = synx.extract(["generator/src/generator.rs"])["generator/src/generator.rs"]
-        tm = [m for m in macros if m["macro"] == "quote" and m["fn"] == "generate_builtin_rules" and "unicode" in m.get("raw", "")]
+        tm = [m for m in macros if m["macro"] == "quote" and m["fn"] == c02.gen_name(gen, "generate_builtin_rules") and "unicode" in m.get("raw", "")]
         r.instance("generator-template", "generator/src/generator.rs:%s" % (tm[0]["line"] if tm else "?"))
         import re as _re
         okt = False
@@ -362,7 +363,7 @@ def access(rep, f, c, names):
     except Exception as e:  # fail closed
         r.violation("generator-template:extract", "generator/src/generator.rs", "template extraction failed: %s" % e)
     if gen is not None:
-        b = gen.fn("pest_generator::generator::generate_builtin_rules")
+        b = c02.gen_fn(gen, "generate_builtin_rules")
         ok = b is not None and any(callee(x) == NAMESFN for x in walk(b["body"]) if kind(x) == "Call")
         r.instance("generator", where(b["body"]) if b else "")
         if not ok:
